@@ -176,6 +176,9 @@ func (c *awsS3Client) putObject(ctx context.Context, key string, body []byte) er
 	if err != nil {
 		if isBucketMissingErr(err) {
 			if ensureErr := c.EnsureBucket(ctx); ensureErr == nil {
+				// The first attempt consumed the reader; a retry with it would
+				// store an empty (or truncated) object and report success.
+				input.Body = bytes.NewReader(body)
 				if _, retryErr := c.api.PutObject(ctx, input); retryErr == nil {
 					return nil
 				} else {
